@@ -83,7 +83,11 @@ func Reach(label string) {}
 func Block()             { panic(Blocked{}) }
 func Spin(msg string)    { panic(SpinDetected{msg}) }
 func Symbolic() bool     { return false }
-func Note(key string, v string) {}
+func Note(key string, v string) {
+	if os.Getenv("VERIF_REPLAY_VERBOSE") != "" {
+		fmt.Fprintf(Out, "ZZ-NOTE %s=%q\n", key, v)
+	}
+}
 
 func Param(name string) string {
 	if cur == nil {
